@@ -260,6 +260,19 @@ class Ctx:
             allok = allok and good
             if a is not None:
                 self.trusted.append("Print Assumptions %s.%s: %s" % (module, t, " ".join(a.split())))
+        if self.tier == "thorough":
+            # independent re-check of the compiled property module and everything it depends on (one coqchk at a time: it needs several GB)
+            import fcntl
+            with open(os.path.join(VERIF, ".coqchk.lock"), "w") as lk:
+                fcntl.flock(lk, fcntl.LOCK_EX)
+                rc, cout = sh(["timeout", "2400", "coqchk", "-silent", "-o", "-Q", COQ, "MoSql", "MoSql." + module], timeout=2500, cwd=COQ)
+            m = re.search(r"\* Axioms:\s*(.*?)\n\s*\n", cout, re.S)
+            axioms = " ".join(m.group(1).split()) if m else "?"
+            good = rc == 0 and axioms == "<none>"
+            self.obligation("coqchk -o MoSql.%s: modules re-checked, axioms %s" % (module, axioms), good, cout[-800:])
+            self.checker_cmds.append("coqchk -silent -o -Q coq MoSql MoSql." + module)
+            self.trusted.append("coqchk -o MoSql.%s: Axioms: %s" % (module, axioms))
+            allok = allok and good
         return allok, out
 
     # ---- finishing
